@@ -471,6 +471,8 @@ static void scInterrupt(const std::string &planner, const std::string &map, int 
             std::string kk = kx;
             if (kk.substr(0, 4) == "C01|" || kk.substr(0, 4) == "C03|")
                 kk = prop + "|threaded|" + kk.substr(kk.substr(0, 13) == "C03|threaded|" ? 13 : 4);
+            if (kx.find("status-approximate-but-exact") != std::string::npos && hadTop && !topBefore.approximate_)
+                kk += "|exact-solution-predates-this-call";  // same classification as in the sequential harness
             out.fail(kk, w + " [k=" + std::to_string(k) + ", step " + step + "]");
         };
         if (extra > 60 && prop == "C03")
